@@ -70,6 +70,11 @@ func c15UserGen(user string, seedSalt uint64) func(r *verifh.Rng) []verifh.Secti
 					}
 					conf = append(conf, fmt.Sprintf("%s/%d", a, w))
 				}
+				if r.Chance(1, 3) {
+					// an address configured twice: the later entry replaces the earlier one, whatever its weight
+					d := conf[r.Intn(len(conf))]
+					conf = append(conf, fmt.Sprintf("%s/%d", d[:strings.LastIndexByte(d, '/')], r.Pick(0, -5, 1, 100, 40)))
+				}
 				if total <= 0 {
 					// New / NewStore terminate the process when no node has a positive weight
 					conf[0] = conf[0][:strings.IndexByte(conf[0], '/')] + "/100"
